@@ -139,27 +139,11 @@ func prop(c harness.Case) harness.Result {
 	return res
 }
 
-var htmlFrags = []string{
-	"<!-->", "<!--->", "<!-- -- -->", "--!>", "-->", "<!--", "<![CDATA[", "]]>", "<!DOCTYPE x>", "<!x", "<?php", "?>", "<3 ", "<script>", "<SCRIPT>", "<ScRiPt x=\"y\">", "</script ", "</script>",
-	"<style>", "<title>", "<textarea>", "<xmp>", "<iframe src=x>", "<noembed>", "<noframes>", "<plaintext>", "<div>", "</div>", "<a href=\">\">", "<a title='>' >", "<noscript>", "</noscript>", "<b>", "<pre>", "</pre>",
-	"\n", "\n", "\n\n", " ", "x", "foo", "<", ">", "<<", "<!", "<script/>", "<script\n>", "<script", "<style ", "\"", "'", "=", "<a <script>", "<a x=\"<style>\">", "<svg>", "<math>", "</", "<//", "<p>", "<img src=x>",
-	"> ", "- ", "    ", "`", "```\n", "*", "[", "](", "&lt;", "&#60;script>", "\\<script>", "<\\script>", "<scr\nipt>", "<Title>", "<TEXTAREA>", "<xMp>", "<script\t>", "<script\f>", "<script\x00>", "<script:x>", "<scriptx>", "<x-script>",
-}
-
-func genHTML(t *rapid.T) []byte {
-	n := rapid.IntRange(1, 14).Draw(t, "n")
-	var out []byte
-	for i := 0; i < n; i++ {
-		out = append(out, htmlFrags[rapid.IntRange(0, len(htmlFrags)-1).Draw(t, "hf")]...)
-	}
-	return out
-}
-
 func genCase(t *rapid.T) harness.Case {
 	var c harness.Case
 	switch k := rapid.IntRange(0, 9).Draw(t, "g"); {
 	case k < 6:
-		c.In = genHTML(t)
+		c.In = gen.HTMLSoup().Draw(t, "html")
 	case k < 8:
 		c.In = gen.Doc().Draw(t, "doc")
 	default:
